@@ -6,6 +6,7 @@ import (
 	"fmt"
 	"sort"
 	"strings"
+	"sync"
 
 	"github.com/ohler55/slip"
 )
@@ -14,6 +15,10 @@ import (
 // is added or removed while the user is interacting with a Completer instance
 // the lo, hi, and index could become offset.
 var completerWords []string
+
+// completerMu protects completerWords when words are added or removed by the
+// set, unset, defun, and class hooks which can be called from any thread.
+var completerMu sync.Mutex
 
 // Completer provides completion choices given a partial word. Words are
 // stored in a slice in sorted order to optimize not only the search for a
@@ -124,6 +129,8 @@ func WordMatch(word string) (words []string, lo, hi int) {
 }
 
 func addWord(word string) {
+	completerMu.Lock()
+	defer completerMu.Unlock()
 	if len(completerWords) == 0 {
 		initWords()
 	}
@@ -136,6 +143,8 @@ func addWord(word string) {
 }
 
 func removeWord(word string) {
+	completerMu.Lock()
+	defer completerMu.Unlock()
 	word = strings.ToLower(word)
 	if words, lo, hi := WordMatch(word); words != nil {
 		for ; lo <= hi; lo++ {
